@@ -421,7 +421,16 @@ def c07 (ms : M) (e : Event) : List String :=
       | .store ("save" :: _) => s + 1
       | .store ["incS"] => s + 1
       | _ => s) ms.S) != e.after.S then ["C07.untracked_sender_change"] else []
-  badReset ++ bad40 ++ badEcho ++ badHonour ++ badBack ++ badSeqReset ++ badS
+  -- ResetOnLogout / ResetOnDisconnect return both counters to 1 exactly at logout / disconnect, whatever they were
+  let badLogoutReset := match e.op, inb with
+    | .msgIn _, some m =>
+      if cfg.resetOnLogout && kindOf m == "5" && (viewOf cfg m).clean && (stLoggedOn prev.st || prev.st == "Logout")
+         && (resets.isEmpty || e.after.S != 1 || e.after.T != 1) then ["C07.reset_on_logout_missing"] else []
+    | _, _ => []
+  let badDiscReset :=
+    if cfg.resetOnDisconnect && stConnected prev.st && !stConnected e.after.st
+       && (resets.isEmpty || e.after.S != 1 || e.after.T != 1) then ["C07.reset_on_disconnect_missing"] else []
+  badReset ++ bad40 ++ badEcho ++ badHonour ++ badBack ++ badSeqReset ++ badS ++ badLogoutReset ++ badDiscReset
 
 /-! ## C08: the shape of a connection -/
 
